@@ -231,7 +231,11 @@ func build(id string, race bool) (bin string, digest string) {
 	d, _ := os.ReadFile(filepath.Join(ov, "weave_digest"))
 	digest = string(d)
 	bin = filepath.Join(buildDir, lid+".test")
-	args := []string{"test", "-c", "-overlay", filepath.Join(ov, "overlay.json"), "-tags", "verif", "-vet=off"}
+	tags := "verif"
+	if extra, err := os.ReadFile(filepath.Join(ov, "tags")); err == nil && len(extra) > 0 {
+		tags += "," + string(extra)
+	}
+	args := []string{"test", "-c", "-overlay", filepath.Join(ov, "overlay.json"), "-tags", tags, "-vet=off"}
 	args = append(args, modfileArgs...)
 	if race {
 		bin = filepath.Join(buildDir, lid+".race.test")
